@@ -18,6 +18,11 @@ CHECKS = {
             "the bytes the reference endpoints sent, while monitors check sequence-number and CBC-residue invariants on the real Decryptor. Held on the executions "
             "observed, not for all histories.",
             TRUST, "3/C01"),
+    "C02": ("exploration", "end-to-end runtime monitoring: reference QUIC v1 endpoints with ground truth -> real run() per case -> output oracle (per-datagram sequence equality) + in-process monitors (packet numbers, parsed frames)",
+            "A reference pair of QUIC endpoints (own packet protection, header protection, frame encoders) produces connections over the whole feature matrix of the property; "
+            "the exported datagram sequence is compared with the sender's per-datagram STREAM concatenations, and monitors compare every reconstructed packet number "
+            "and parsed frame list with what was sent. Held on the executions observed.",
+            TRUST, "3/C02"),
     "C14": ("exploration", "runtime contract on the real split_cipher_suite, evaluated exhaustively over all 65 536 code points",
             "Exhaustive enumeration of the whole input space of the real function under a post-condition derived from an independent frozen "
             "IANA registry copy and an independent structural name parser; the space is finite so this run is complete for the function, and the "
